@@ -283,8 +283,30 @@ def gen_kernprof_options():
     out.append(',\n'.join('  ⟨%s, %s, .%s⟩' % (lean_str(s), lean_str(l), k) for s, l, k in rows))
     out.append(']')
     out.append('')
+    out.append('/-- argparse\'s `allow_abbrev` of every parser kernprof creates (`True` is argparse\'s default) -/')
+    out.append('def kernprofAllowAbbrev : Bool := %s' % ('true' if kernprof_allow_abbrev() else 'false'))
+    out.append('')
     out.append('end LPVerif.Generated')
     return '\n'.join(out) + '\n'
+
+
+def kernprof_allow_abbrev():
+    """True unless every construction of an ArgumentParser in kernprof.py (directly or through functools.partial) passes allow_abbrev=False"""
+    tree = ast.parse(src_of('kernprof.py'))
+    sites = []
+    for node in ast.walk(tree):
+        if isinstance(node, ast.Call):
+            f = ast.unparse(node.func)
+            if f in ('ArgumentParser', 'argparse.ArgumentParser') or (f in ('functools.partial', 'partial') and node.args and ast.unparse(node.args[0]) in ('ArgumentParser', 'argparse.ArgumentParser')):
+                sites.append(node)
+    if not sites:
+        return True
+    for node in sites:
+        kw = {k.arg: k.value for k in node.keywords}
+        v = kw.get('allow_abbrev')
+        if not (isinstance(v, ast.Constant) and v.value is False):
+            return True
+    return False
 
 
 def gen_explicit_tables():
